@@ -517,12 +517,19 @@ structure Stmt where
 
 def Stmt.outputBindings (st : Stmt) : List Bytes := (st.projs.map Proj.out).filter (· ≠ [])
 
-/-- Projection without GROUP BY: aliases are copied sequentially, columns become the output bindings. -/
+/-- One alias of the plain projection: the binding is read from the row as the pattern produced it (`r`), the
+    alias is written into the row under construction; a missing binding leaves a nil cell (a missing key). -/
+def projStep (r : Row) (out : Row) (p : Proj) : Row :=
+  match r.get p.binding with
+  | some c => out.set p.alias c
+  | none => out.filter fun kv => kv.1 != p.alias
+
+/-- One row of the plain projection: every value is read before any alias is written (1cfe61b). -/
+def projectRow (ps : List Proj) (r : Row) : Row := ps.foldl (projStep r) r
+
+/-- Projection without GROUP BY: the aliases are written, columns become the output bindings. -/
 def projectPlain (st : Stmt) (t : Tbl) : Except QErr Tbl :=
-  let rows := st.projs.foldl (fun rows p =>
-      rows.map fun r => match r.get p.binding with
-        | some c => r.set p.alias c
-        | none => r) t.rows      -- a missing binding leaves a nil cell; rendered as NULL like a missing key
+  let rows := t.rows.map (projectRow st.projs)
   let t : Tbl := { bindings := dedup (t.bindings ++ st.outputBindings), rows := rows }
   if t.rows.isEmpty || t.bindings.isEmpty then .ok t
   else .ok { t with bindings := dedup st.outputBindings }
